@@ -18,8 +18,24 @@ type pVia struct {
 
 // genRespVia: one Via entry of a response: transport skeleton, IPv4 literal with a symbolic
 // last octet or a name of the host table, optional port, parameters in any of the listed kinds.
-func genRespVia(L int, tag string) pVia {
+func genRespVia(L int, tag string, deep bool) pVia {
 	var v pVia
+	if deep {
+		// entries below the next hop only have to survive untouched: a smaller skeleton
+		v.transport = "TCP"
+		v.host = "10.0.2." + rt.Dec("octet", 2)
+		v.ip = v.host
+		v.text = "SIP/2.0/" + v.transport + " " + v.host
+		if rt.Bool("hasport") {
+			v.port = genPort()
+			v.text += ":" + v.port
+		}
+		v.text += ";branch=z9hG4bK" + tag + rt.Str("br", "alnum", 1, L)
+		if rt.Bool("deep-params") {
+			v.text += ";received=10.0.4." + rt.Dec("roctet", 2) + ";rport=" + genPort() + ";" + rt.Str("xk", "[a-qs-z]", 1, L) + "=" + rt.Str("xv", clsToken, 1, L)
+		}
+		return v
+	}
 	v.transport = []string{"UDP", "TCP", "udp", "TLS", "SCTP"}[rt.Choice("transport", 5)]
 	switch hk := rt.Choice("hostkind", 3); {
 	case hk == 1:
@@ -81,7 +97,7 @@ func (v pVia) dest() (string, bool) {
 // VC02_Response: response with 1..N Via entries in any mix of comma-separated values and
 // repeated header lines.
 func VC02_Response() {
-	L, N := rt.Param("L"), rt.Param("N")
+	L, N, X := rt.Param("L"), rt.Param("N"), rt.Param("X")
 	w := newWorld(worldOpts{nBackends: 1, hosts: map[string]string{"ua.example.com": "10.0.2.77"}})
 	n := rt.Choice("nvia", N) + 1
 	var vias []pVia
@@ -91,7 +107,7 @@ func VC02_Response() {
 		if i == 0 {
 			v = pVia{text: "SIP/2.0/UDP 10.0.0.9:5060;branch=z9hG4bKown"}
 		} else {
-			v = genRespVia(L, itoa(i))
+			v = genRespVia(L, itoa(i), i >= 2 && X == 0)
 		}
 		vias = append(vias, v)
 		if i > 0 && rt.Bool("comma") {
@@ -105,10 +121,12 @@ func VC02_Response() {
 	}
 	head += "\r\n"
 	status := rt.Int("status", 100, 699)
-	method := []string{"OPTIONS", "SUBSCRIBE", "INVITE", "BYE"}[rt.Choice("cseq-method", 4)]
-	toTag := ";tag=b"
-	if rt.Bool("no-to-tag") {
-		toTag = "" // e.g. a 100 Trying
+	method, toTag := "OPTIONS", ";tag=b"
+	if X != 0 {
+		method = []string{"OPTIONS", "SUBSCRIBE", "INVITE", "BYE"}[rt.Choice("cseq-method", 4)]
+		if rt.Bool("no-to-tag") {
+			toTag = "" // e.g. a 100 Trying
+		}
 	}
 	text := "SIP/2.0 " + itoa(status) + " OK\r\n" + head +
 		"From: <sip:alice@example.com>;tag=a\r\nTo: <sip:bob@example.net>" + toTag + "\r\nCall-ID: c1\r\nCSeq: 1 " + method + "\r\nContent-Length: 0\r\n\r\n"
